@@ -41,7 +41,9 @@ CLAIMED = {
         engine="core",
         text="Lean 4: Core.Sync (variables = forward/reverse pairs with the boxes of update_variable_bounds, rows = metabolites with current "
              "stoichiometry, antisymmetric objective) is preserved by every modelled operation and every program of operations and nested contexts "
-             "(sync_preserved, sync_after_program), and the forward/reverse boxes describe exactly [lb, ub] (split_range). Tied to the code by a "
+             "(sync_preserved, sync_after_program); the forward/reverse boxes describe exactly [lb, ub] (split_range), a solver row evaluated at any "
+             "assignment is the steady-state equation on the net fluxes (row_is_steady_state) and the objective row is the reported coefficients on "
+             "the net fluxes (objective_on_net_fluxes). Tied to the code by a "
              "step-by-step correspondence that reads the raw GLPK problem, plus a direct oracle that rebuilds the FBA problem from the content "
              "after every step of every generated history (all public edit ops, failing ones included).",
         note=CORE_NOTE, technique="Lean 4 proof (invariant over operation sequences) + differential correspondence incl. raw GLPK read-out",
